@@ -126,7 +126,11 @@ def column_contracts():
 
     @reg(r'<String as AddAssign<&str>>::add_assign$|^String::push_str$')
     def add_assign(exe, path, callee, args, dst_ty):
-        l8, l16 = fresh_len(exe, path, 'raw')
+        v = exe.deref_all(path, args[1])
+        if isinstance(v, Agg) and v.name == 'OutSlice':
+            l8, l16 = v.fields[1], v.fields[0]        # a text whose class vector is known (the routine's own argument): appended as it is
+        else:
+            l8, l16 = fresh_len(exe, path, 'raw')
         append(exe, path, args[0], l8, l16)
         path.event('append_str', exe.snapshot(path, args[1]), l16)
         return [('ret', path, UNIT)]
@@ -281,7 +285,11 @@ def column_target(mod, res):
         src = SymEnum('srcopt', 'Option', z3.If(src_some, z3.IntVal(1), z3.IntVal(0)), lambda var, j: sc_env.token('n', 0))
         fn = mod.find(pat)
         if which == 'append_raw':
-            args = [Ref(('heap', 'out')), z3.String('raw_text')]
+            # the raw text is an arbitrary string: its scalar-width class vector is symbolic, so any measure the routine takes of the
+            # *argument* (len / chars / encode_utf16) is decided as well
+            rcv = tuple(z3.Int('rawarg_w%d' % (k + 1)) for k in range(4))
+            p.pc.append(z3.And([c >= 0 for c in rcv] + [u8_of(rcv) <= 2**20]))
+            args = [Ref(('heap', 'out')), Agg('OutSlice', None, {0: u16_of(rcv), 1: rcv})]
         else:
             args = [Ref(('heap', 'out')), st, src]
         t = time.time()
@@ -359,7 +367,9 @@ def confirm_columns(res, ob, which):
     at the output column where its token starts"""
     sheets = [('.a .b{width:75rpx;color:red}', {'class_prefix': 'p'}), ('.中  .b>c{x:calc(1rpx + 2px) a b}', {'class_prefix': '文'}),
               ('@media (a){.x{y:z}}', {}), ('a{b:"\U0001F600" c}', {}), ('a{b:"é" c "\U0001F600\U0001F601" d}\n.\U0001F600{e:f}', {'class_prefix': 'p'}),
-              ('\U0001F600{x:y}', {})]
+              ('\U0001F600{x:y}', {}),
+              ('@layer \u4e3b\u9898{@container \u5361\u7247 (min-width:100rpx){:host{width:75rpx;c:d}}}', {'convert_host': True, 'class_prefix': 'p'}),
+              ('@media (a){@supports (\U0001F600:b){:host{width:75rpx} :host(.x){e:f}}}', {'convert_host': True})]
     sheets += [(c.rstrip(')}] '), o) for c, o in sheets if c.rstrip(')}] ') != c]       # blocks left open at the end of the input
     for css, opts in sheets:
         why, text = cc.map_mismatch(css, opts)
